@@ -21,18 +21,21 @@ std::string hx(uint64_t v) { return vf::fmt("0x%llX", (unsigned long long)v); }
 // Checks that `rd` behaves as a reader over m[0..n) with the cursor at c, using every accessor.  `base` (may be
 // null) is the address byte 0 must have (peek/getv/pgetv return pointers into the data, not copies).
 bool verify_view(vf::Run& r, const std::string& form, const StringReader& rd0, const uint8_t* m, size_t n, size_t c, const uint8_t* base, const std::function<std::string()>& d) {
-  auto bad = [&](const char* kind, const std::string& what) {
-    r.fail(form + ":" + kind, [&] { return d() + vf::fmt(" (expected view: %zu bytes %s, cursor %zu) :: ", n, hexb(m, n).c_str(), c) + what; });
+  // keys: a wrong view (size / cursor / bytes right after the construction) is filed under the form that built it;
+  // a right view read wrongly is filed under the accessor that misread it (same keys as the other sections)
+  auto bad = [&](const std::string& key, const std::string& what) {
+    r.fail(key, [&] { return d() + vf::fmt(" (expected view: %zu bytes %s, cursor %zu) :: ", n, hexb(m, n).c_str(), c) + what; });
     return false;
   };
   std::string stage = "state";
   try {
     StringReader rd = rd0;
     if (rd.size() != n || rd.where() != c || rd.eof() != (c >= n) || (c <= n && rd.remaining() != n - c))
-      return bad("state", vf::fmt("size()=%zu where()=%zu eof()=%d remaining()=%zu", rd.size(), rd.where(), (int)rd.eof(), rd.remaining()));
+      return bad(form + ":state", vf::fmt("size()=%zu where()=%zu eof()=%d remaining()=%zu", rd.size(), rd.where(), (int)rd.eof(), rd.remaining()));
     {
       std::string a = rd.all();
-      if (a.size() != n || memcmp(a.data(), m, n)) return bad("state", "all() returned " + hexb(a.data(), a.size()));
+      if (a.size() != n || memcmp(a.data(), m, n)) return bad(form + ":state", "all() returned " + hexb(a.data(), a.size()));
+      if (base && c <= n && (const uint8_t*)rd.pgetv(0, n) != base) return bad(form + ":state", "the view does not start at the expected address");
     }
     // --- positional typed reads: every kind at every offset; one past the last fitting offset must throw ----
     stage = "pget";
@@ -40,7 +43,7 @@ bool verify_view(vf::Run& r, const std::string& form, const StringReader& rd0, c
       for (size_t off = 0; off + k.w <= n; off++) {
         uint64_t want = k.expect(dec(m + off, k.w, k.e));
         uint64_t g = k.pget(rd, off);
-        if (g != want) return bad("typed", vf::fmt("pget_%s(%zu) returned %s, decoder says %s", k.name, off, hx(g).c_str(), hx(want).c_str()));
+        if (g != want) return bad(kname("pget", k) + ":value", vf::fmt("pget_%s(%zu) returned %s, decoder says %s", k.name, off, hx(g).c_str(), hx(want).c_str()));
       }
       size_t off = n + 1 >= (size_t)k.w ? n + 1 - k.w : 0;
       if (off + k.w > n) {
@@ -49,9 +52,9 @@ bool verify_view(vf::Run& r, const std::string& form, const StringReader& rd0, c
         try {
           g = k.pget(rd, off);
         } catch (const std::out_of_range&) { threw = true; }
-        if (!threw) return bad("typed", vf::fmt("pget_%s(%zu) needs bytes up to %zu of %zu, yet returned %s", k.name, off, off + k.w, n, hx(g).c_str()));
+        if (!threw) return bad(kname("pget", k) + ":returns-without-data", vf::fmt("pget_%s(%zu) needs bytes up to %zu of %zu, yet returned %s", k.name, off, off + k.w, n, hx(g).c_str()));
       }
-      if (rd.where() != c) return bad("typed", vf::fmt("pget_%s moved the cursor to %zu", k.name, rd.where()));
+      if (rd.where() != c) return bad(kname("pget", k) + ":advance", vf::fmt("pget_%s moved the cursor to %zu", k.name, rd.where()));
     }
     // --- typed reads at the cursor ---------------------------------------------------------------------------
     stage = "get";
@@ -63,15 +66,15 @@ bool verify_view(vf::Run& r, const std::string& form, const StringReader& rd0, c
         size_t w0 = q.where();
         uint64_t g1 = k.get(q, true);
         size_t w1 = q.where();
-        if (g0 != want || g1 != want) return bad("typed", vf::fmt("get_%s at the cursor returned %s (advance=false) / %s, decoder says %s", k.name, hx(g0).c_str(), hx(g1).c_str(), hx(want).c_str()));
-        if (w0 != c || w1 != c + k.w) return bad("cursor", vf::fmt("get_%s: cursor %zu after advance=false, %zu after advance=true (width %d)", k.name, w0, w1, k.w));
+        if (g0 != want || g1 != want) return bad(kname("get", k) + ":value", vf::fmt("get_%s at the cursor returned %s (advance=false) / %s, decoder says %s", k.name, hx(g0).c_str(), hx(g1).c_str(), hx(want).c_str()));
+        if (w0 != c || w1 != c + k.w) return bad(kname("get", k) + ":advance", vf::fmt("get_%s: cursor %zu after advance=false, %zu after advance=true (width %d)", k.name, w0, w1, k.w));
       } else {
         bool threw = false;
         uint64_t g = 0;
         try {
           g = k.get(q, true);
         } catch (const std::out_of_range&) { threw = true; }
-        if (!threw) return bad("typed", vf::fmt("get_%s with %zu bytes left returned %s", k.name, c <= n ? n - c : 0, hx(g).c_str()));
+        if (!threw) return bad(kname("get", k) + ":returns-without-data", vf::fmt("get_%s with %zu bytes left returned %s", k.name, c <= n ? n - c : 0, hx(g).c_str()));
       }
     }
     // --- raw blocks at the cursor -------------------------------------------------------------------------------
@@ -81,50 +84,50 @@ bool verify_view(vf::Run& r, const std::string& form, const StringReader& rd0, c
     {
       StringReader q = rd;
       std::string g = q.read(n + 5);
-      if (g != rest || q.where() != after) return bad("block", vf::fmt("read(%zu) returned %s, cursor %zu; model %s, cursor %zu", n + 5, vf::show(g).c_str(), q.where(), vf::show(rest).c_str(), after));
+      if (g != rest || q.where() != after) return bad("read:value", vf::fmt("read(%zu) returned %s, cursor %zu; model %s, cursor %zu", n + 5, vf::show(g).c_str(), q.where(), vf::show(rest).c_str(), after));
       q = rd;
       g = q.read(~(size_t)0, false);
-      if (g != rest || q.where() != c) return bad("block", vf::fmt("read(SIZE_MAX, advance=false) returned %s, cursor %zu", vf::show(g).c_str(), q.where()));
+      if (g != rest || q.where() != c) return bad("read:value", vf::fmt("read(SIZE_MAX, advance=false) returned %s, cursor %zu", vf::show(g).c_str(), q.where()));
       g = rd.pread(c, ~(size_t)0);
-      if (g != rest) return bad("block", "pread(cursor, SIZE_MAX) returned " + vf::show(g));
+      if (g != rest) return bad("pread:value", "pread(cursor, SIZE_MAX) returned " + vf::show(g));
       Exact b(rest.size() + 3);
       q = rd;
       size_t cnt = q.read(b.p, rest.size() + 3);
-      if (cnt != rest.size() || memcmp(b.p, rest.data(), cnt) || q.where() != after) return bad("block", vf::fmt("read(buf, %zu) returned %zu bytes %s, cursor %zu", rest.size() + 3, cnt, hexb(b.p, cnt < b.n ? cnt : b.n).c_str(), q.where()));
-      if (b.p[rest.size()] != 0xEE) return bad("block", "read(buf) wrote past the bytes it reported");
+      if (cnt != rest.size() || memcmp(b.p, rest.data(), cnt) || q.where() != after) return bad("read_buf:value", vf::fmt("read(buf, %zu) returned %zu bytes %s, cursor %zu", rest.size() + 3, cnt, hexb(b.p, cnt < b.n ? cnt : b.n).c_str(), q.where()));
+      if (b.p[rest.size()] != 0xEE) return bad("read_buf:value", "read(buf) wrote past the bytes it reported");
       memset(b.p, 0xEE, b.n);
       cnt = rd.pread(c, b.p, rest.size() + 3);
-      if (cnt != rest.size() || memcmp(b.p, rest.data(), cnt)) return bad("block", vf::fmt("pread(cursor, buf, %zu) returned %zu bytes", rest.size() + 3, cnt));
+      if (cnt != rest.size() || memcmp(b.p, rest.data(), cnt)) return bad("pread_buf:value", vf::fmt("pread(cursor, buf, %zu) returned %zu bytes", rest.size() + 3, cnt));
     }
     if (c <= n) {
       StringReader q = rd;
       std::string g = q.readx(rest.size());
-      if (g != rest || q.where() != n) return bad("block", vf::fmt("readx(%zu) returned %s, cursor %zu", rest.size(), vf::show(g).c_str(), q.where()));
+      if (g != rest || q.where() != n) return bad("readx:value", vf::fmt("readx(%zu) returned %s, cursor %zu", rest.size(), vf::show(g).c_str(), q.where()));
       g = rd.preadx(c, rest.size());
-      if (g != rest) return bad("block", "preadx(cursor, rest) returned " + vf::show(g));
+      if (g != rest) return bad("preadx:value", "preadx(cursor, rest) returned " + vf::show(g));
       Exact b(rest.size());
       q = rd;
       q.readx(b.p, rest.size());
-      if (memcmp(b.p, rest.data(), rest.size()) || q.where() != n) return bad("block", vf::fmt("readx(buf, %zu) gave %s, cursor %zu", rest.size(), hexb(b.p, rest.size()).c_str(), q.where()));
+      if (memcmp(b.p, rest.data(), rest.size()) || q.where() != n) return bad("readx_buf:value", vf::fmt("readx(buf, %zu) gave %s, cursor %zu", rest.size(), hexb(b.p, rest.size()).c_str(), q.where()));
       memset(b.p, 0xEE, b.n);
       rd.preadx(c, b.p, rest.size());
-      if (memcmp(b.p, rest.data(), rest.size())) return bad("block", "preadx(cursor, buf, rest) gave " + hexb(b.p, rest.size()));
+      if (memcmp(b.p, rest.data(), rest.size())) return bad("preadx_buf:value", "preadx(cursor, buf, rest) gave " + hexb(b.p, rest.size()));
       q = rd;
       const char* pk = q.peek(rest.size());
-      if (memcmp(pk, rest.data(), rest.size()) || q.where() != c || (base && (const uint8_t*)pk != base + c)) return bad("block", "peek(rest) does not point at the bytes at the cursor");
+      if (memcmp(pk, rest.data(), rest.size()) || q.where() != c || (base && (const uint8_t*)pk != base + c)) return bad("peek:value", "peek(rest) does not point at the bytes at the cursor");
       const void* gv = q.getv(rest.size(), false);
       const void* pv = q.pgetv(c, rest.size());
-      if (gv != pk || pv != pk || q.where() != c) return bad("block", "getv(rest, false) / pgetv(cursor, rest) do not point at the bytes at the cursor");
+      if (gv != pk || pv != pk || q.where() != c) return bad("getv:value", "getv(rest, false) / pgetv(cursor, rest) do not point at the bytes at the cursor");
       gv = q.getv(rest.size());
-      if (gv != pk || q.where() != n) return bad("cursor", vf::fmt("getv(%zu) left the cursor at %zu", rest.size(), q.where()));
-      if (!q.eof() || q.remaining() != 0) return bad("state", "eof()/remaining() wrong after reading everything");
+      if (gv != pk || q.where() != n) return bad("getv:advance", vf::fmt("getv(%zu) left the cursor at %zu", rest.size(), q.where()));
+      if (!q.eof() || q.remaining() != 0) return bad("getv:advance", "eof()/remaining() wrong after reading everything");
       // one byte more than there is must throw
       bool t1 = false, t2 = false, t3 = false;
       q = rd;
       try { q.readx(rest.size() + 1); } catch (const std::out_of_range&) { t1 = true; }
       try { q.peek(rest.size() + 1); } catch (const std::out_of_range&) { t2 = true; }
       try { q.getv(rest.size() + 1); } catch (const std::out_of_range&) { t3 = true; }
-      if (!t1 || !t2 || !t3) return bad("block", vf::fmt("readx/peek/getv(%zu) with %zu bytes left did not throw (%d%d%d)", rest.size() + 1, rest.size(), (int)t1, (int)t2, (int)t3));
+      if (!t1 || !t2 || !t3) return bad("readx:returns-without-data", vf::fmt("readx/peek/getv(%zu) with %zu bytes left did not throw (%d%d%d)", rest.size() + 1, rest.size(), (int)t1, (int)t2, (int)t3));
     }
     // --- C string and line at the cursor --------------------------------------------------------------------------
     stage = "cstr/line";
@@ -135,13 +138,13 @@ bool verify_view(vf::Run& r, const std::string& form, const StringReader& rd0, c
         std::string g0 = q.get_cstr(false), g1 = rd.pget_cstr(c);
         size_t w0 = q.where();
         std::string g2 = q.get_cstr();
-        if (g0 != want || g1 != want || g2 != want) return bad("cstr", vf::fmt("get_cstr(false) / pget_cstr / get_cstr returned %s / %s / %s, model %s", vf::show(g0).c_str(), vf::show(g1).c_str(), vf::show(g2).c_str(), vf::show(want).c_str()));
-        if (w0 != c || q.where() != c + want.size() + 1) return bad("cursor", vf::fmt("get_cstr: cursor %zu after advance=false, %zu after advance=true (string of %zu + NUL)", w0, q.where(), want.size()));
+        if (g0 != want || g1 != want || g2 != want) return bad("get_cstr:value", vf::fmt("get_cstr(false) / pget_cstr / get_cstr returned %s / %s / %s, model %s", vf::show(g0).c_str(), vf::show(g1).c_str(), vf::show(g2).c_str(), vf::show(want).c_str()));
+        if (w0 != c || q.where() != c + want.size() + 1) return bad("get_cstr:advance", vf::fmt("get_cstr: cursor %zu after advance=false, %zu after advance=true (string of %zu + NUL)", w0, q.where(), want.size()));
       } else {
         bool threw = false;
         std::string g;
         try { g = q.get_cstr(); } catch (const std::out_of_range&) { threw = true; }
-        if (!threw) return bad("cstr", "no NUL at or after the cursor, yet get_cstr returned " + vf::show(g));
+        if (!threw) return bad("get_cstr:returns-without-data", "no NUL at or after the cursor, yet get_cstr returned " + vf::show(g));
       }
       size_t np = 0;
       q = rd;
@@ -149,13 +152,13 @@ bool verify_view(vf::Run& r, const std::string& form, const StringReader& rd0, c
         std::string g0 = q.get_line(false);
         size_t w0 = q.where();
         std::string g1 = q.get_line();
-        if (g0 != want || g1 != want) return bad("line", vf::fmt("get_line(false) / get_line returned %s / %s, model %s", vf::show(g0).c_str(), vf::show(g1).c_str(), vf::show(want).c_str()));
-        if (w0 != c || q.where() != np) return bad("cursor", vf::fmt("get_line: cursor %zu after advance=false, %zu after advance=true, model %zu", w0, q.where(), np));
+        if (g0 != want || g1 != want) return bad("get_line:value", vf::fmt("get_line(false) / get_line returned %s / %s, model %s", vf::show(g0).c_str(), vf::show(g1).c_str(), vf::show(want).c_str()));
+        if (w0 != c || q.where() != np) return bad("get_line:advance", vf::fmt("get_line: cursor %zu after advance=false, %zu after advance=true, model %zu", w0, q.where(), np));
       } else {
         bool threw = false;
         std::string g;
         try { g = q.get_line(); } catch (const std::out_of_range&) { threw = true; }
-        if (!threw) return bad("line", "cursor at or past the end, yet get_line returned " + vf::show(g));
+        if (!threw) return bad("get_line:returns-without-data", "cursor at or past the end, yet get_line returned " + vf::show(g));
       }
     }
     // --- sequential tiling from the cursor with a rotating choice of kinds --------------------------------------
@@ -169,24 +172,25 @@ bool verify_view(vf::Run& r, const std::string& form, const StringReader& rd0, c
         if ((size_t)k->w > n - pos) k = kind("u8");
         uint64_t want = k->expect(dec(m + pos, k->w, k->e));
         uint64_t g = k->get(q, true);
-        if (g != want) return bad("typed", vf::fmt("sequential get_%s at %zu returned %s, decoder says %s", k->name, pos, hx(g).c_str(), hx(want).c_str()));
+        if (g != want) return bad(kname("get", *k) + ":value", vf::fmt("sequential get_%s at %zu returned %s, decoder says %s", k->name, pos, hx(g).c_str(), hx(want).c_str()));
         pos += k->w;
-        if (q.where() != pos) return bad("cursor", vf::fmt("cursor %zu after sequential get_%s ending at %zu", q.where(), k->name, pos));
+        if (q.where() != pos) return bad(kname("get", *k) + ":advance", vf::fmt("cursor %zu after sequential get_%s ending at %zu", q.where(), k->name, pos));
       }
-      if (!q.eof() || q.remaining() != 0) return bad("state", "eof()/remaining() wrong after the sequential pass");
+      if (!q.eof() || q.remaining() != 0) return bad("sequential:eof", "eof()/remaining() wrong after the sequential pass");
       // go back and re-read: same values
       q.go(c);
-      if (q.where() != c) return bad("cursor", vf::fmt("go(%zu) left the cursor at %zu", c, q.where()));
-      if (c < n && q.get_u8() != m[c]) return bad("typed", "get_u8 after go(cursor) returned a different byte");
+      if (q.where() != c) return bad("go:advance", vf::fmt("go(%zu) left the cursor at %zu", c, q.where()));
+      if (c < n && q.get_u8() != m[c]) return bad("go:advance", "get_u8 after go(cursor) returned a different byte");
       q.go(0);
       q.skip(n);
-      if (q.where() != n || !q.eof()) return bad("cursor", vf::fmt("go(0); skip(%zu) left the cursor at %zu", n, q.where()));
+      if (q.where() != n || !q.eof()) return bad("skip:advance", vf::fmt("go(0); skip(%zu) left the cursor at %zu", n, q.where()));
     }
     // the reader handed in must be untouched (it is const; derived copies did all the moving)
-    if (rd0.where() != c || rd0.size() != n) return bad("state", "the reader changed while copies of it were read");
+    if (rd0.where() != c || rd0.size() != n) return bad(form + ":state", "the reader changed while copies of it were read");
   } catch (const std::exception& e) {
     std::string what = e.what();
-    return bad("throws", "unexpected exception during stage " + stage + ": " + what);
+    // an exception while the freshly built view is inspected is the form's fault; later it is the accessor group's
+    return bad((stage == "state" ? form : "view_" + stage) + ":throws", "unexpected exception during stage " + stage + ": " + what);
   }
   return true;
 }
@@ -198,7 +202,7 @@ struct ViewCase {
 
 }  // namespace
 
-VF_SECTION(rd_views, 8, 8, 60) {
+VF_SECTION(rd_views, 8, 8, 180) {
   const size_t HUGE[] = {0x7FFFFFFFull, 0x80000000ull, 0xFFFFFFFFull, 0x100000000ull, 0x7FFFFFFFFFFFFFFFull, 0x8000000000000000ull, ~(size_t)0 - 1, ~(size_t)0};
   Exact pa(NPA);
   memcpy(pa.p, PA, NPA);
@@ -477,7 +481,7 @@ std::vector<RCall> build_rcalls(const uint8_t* content0, size_t n0, const uint8_
         [amount](const uint8_t*, RSt& s, ROut& e) {
           if (s.p_unknown || s.p > s.n) return R_DONTCARE;
           size_t k = amount(s);
-          if (!model_fits(s.n, s.p, k)) { e.threw = true; s.p_unknown = true; return R_COMPARE; }  // cursor after a refused skip: don't-care
+          if (!model_fits(s.n, s.p, k)) return R_DONTCARE;  // skip beyond the end: the statement is silent (the library throws and parks the cursor at the end)
           s.p += k;
           return R_COMPARE;
         },
@@ -660,7 +664,10 @@ std::vector<RCall> build_rcalls(const uint8_t* content0, size_t n0, const uint8_
       },
       [](StringReader& rd, const uint8_t*, const RSt& b, ROut&) { rd.truncate(b.n - 1); });
   add("truncate(size)", "truncate",
-      [](const uint8_t*, RSt&, ROut&) { return R_COMPARE; },
+      [](const uint8_t*, RSt& s, ROut&) {
+        if (s.p > s.n) s.p_unknown = true;  // cursor beyond the end: where() is a don't-care after any truncate
+        return R_COMPARE;
+      },
       [](StringReader& rd, const uint8_t*, const RSt& b, ROut&) { rd.truncate(b.n); });
   add("rd = StringReader(buf, n0)", "reseat",
       [n0](const uint8_t*, RSt& s, ROut&) { s.n = n0; s.p = 0; s.p_unknown = false; return R_COMPARE; },
@@ -756,7 +763,7 @@ void rops_dfs(RCtx& cx, const StringReader& rd, const RSt& st, int depth) {
 
 }  // namespace
 
-VF_SECTION(rd_ops, 16, 16, 60) {
+VF_SECTION(rd_ops, 16, 16, 180) {
   const int maxdepth = 3;
   std::vector<std::string> contents;
   vf::all_strings(std::string("a\0\n", 3), r.thorough() ? 5 : 3, [&](const std::string& s) { contents.push_back(s); });
